@@ -13,7 +13,9 @@ PROPERTY = 'C16'
 LEVEL = 'proof'
 REQUIRED_THEOREMS = ['Properties.C16.evalDual_sound', 'Properties.C16.rq_interior_smooth', 'Properties.C16.rq_executed_derivative_is_dual', 'Properties.C16.dual_primitives_sound', 'Properties.C16.tanh_forward_dual', 'Properties.C16.sigmoid_forward_dual', 'Properties.C16.affine_dual', 'Properties.C16.nonlin_dual_value', 'Properties.C16.rq_program_dual',
                      'Properties.C16.rqSpline_inverse_dual', 'Properties.C16.rqSpline_inverse_tangent', 'Properties.C16.rqSpline_param_dual', 'Properties.C16.quadSpline_dual',
-                     'Properties.C16.quadSpline_dual_tails_shape', 'Properties.C16.linSpline_dual']
+                     'Properties.C16.quadSpline_dual_tails_shape', 'Properties.C16.linSpline_dual',
+                     'Properties.C16.rqSpline_inverse_param_dual', 'Properties.C16.linSpline_param_dual', 'Properties.C16.quadSpline_param_dual',
+                     'Properties.C16.quadSpline_param_dual_tails_shape', 'Properties.C16.coupling_layer_dual', 'Properties.C16.coupling_layer_inverse_dual']
 RULE = ("registry x regimes x directions; leaves = inputs, the recorded conditioner output (replaced by a fresh leaf through a forward hook) or the layer's own "
         "parameters; random cotangents r, r' and 2 random directions per case; compare <autograd grad, direction> with the dual-number tangent of "
         "sum(out*r)+sum(ld*r') from the Lean model; distinct = (entry, regime, direction, dir index); non-trivial = derivative non-zero")
